@@ -272,12 +272,17 @@ class IOData:
         # https://www.attrs.org/en/stable/init.html#private-attributes
         if self._atcorenums is not None:
             self.atcorenums = self._atcorenums
-        if self._charge is not None:
-            self.charge = self._charge
-        if self._nelec is not None:
-            self.nelec = self._nelec
-        if self._spinpol is not None:
-            self.spinpol = self._spinpol
+        # When orbitals are present, they determine nelec, spinpol and charge:
+        # stored values are ignored by the getters and cannot be assigned.
+        # Such an object (e.g. nelec was assigned before mo) must remain
+        # copyable with attrs.evolve, so they are not replayed.
+        if self.mo is None:
+            if self._charge is not None:
+                self.charge = self._charge
+            if self._nelec is not None:
+                self.nelec = self._nelec
+            if self._spinpol is not None:
+                self.spinpol = self._spinpol
 
     # Public interfaces to private attributes
 
